@@ -33,7 +33,7 @@ Definition trk0 : trk := mkTrk MIN_DT 0 MIN_DT.
 
 Inductive tsd :=
 | Leaf (k : trk) (v : Z)
-| Fix (k : trk) (fk : Z) (bits : Z) (kids : list tsd)   (* fk: 1 = TSB, 3 = TSB with projected value, 2 = TSL; bits: a plain TSB value's field-valid bits *)
+| Fix (k : trk) (fk : Z) (bits : Z) (kids : list tsd)   (* fk: 1 = TSB, 3 = TSB with projected value, 2 = fixed TSL, 4 = unbounded TSL; bits: a plain TSB value's field-valid bits *)
 | Dict (k : trk) (elem : shape) (kids : list (Z * tsd)).   (* live keys, sorted by key *)
 
 (* A TSB whose sub-tree holds a dictionary presents a PROJECTED value surface (field validity is read
@@ -51,7 +51,7 @@ Fixpoint init (s : shape) : tsd :=
   match s with
   | STS => Leaf trk0 0
   | STSB fs => Fix trk0 (if existsb has_dict fs then 3 else 1) 0 (map init fs)
-  | STSL n e => Fix trk0 2 0 (repeat (init e) n)
+  | STSL n e => Fix trk0 (if Nat.eqb n 0 then 4 else 2) 0 (repeat (init e) n)   (* n = 0: unbounded list, grows on demand *)
   | STSD e => Dict trk0 e []
   end.
 
@@ -316,6 +316,33 @@ Fixpoint keys_exist (p : path) (s : tsd) : bool :=
     end
   end.
 
+(* TSDataView::ensure_indexed_child_at on an unbounded TSL: writing index m of a list of fewer than m+1
+   elements first appends fresh elements up to m (growth alone marks nothing).  Done as a pre-pass along the
+   path of an operation, with the shape telling which lists are unbounded (STSL 0 e). *)
+Fixpoint grow (sh : shape) (p : path) (s : tsd) : tsd :=
+  match p with
+  | [] => s
+  | i :: p' =>
+    match sh, s with
+    | STSL n e, Fix k fk b kids =>
+      match zidx i with
+      | Some m =>
+        let kids1 := if Nat.eqb n 0 && (length kids <=? m)%nat then kids ++ repeat (init e) (S m - length kids) else kids in
+        Fix k fk b (update m (grow e p') kids1)
+      | None => s
+      end
+    | STSB fs, Fix k fk b kids =>
+      match zidx i with
+      | Some m => match nth_error fs m with Some f => Fix k fk b (update m (grow f p') kids) | None => s end
+      | None => s
+      end
+    | _, _ => s          (* not below a dictionary: the generator keeps unbounded lists out of TSD elements *)
+    end
+  end.
+
+Definition op_path (o : op) : path :=
+  match o with OSet p _ => p | OInv p => p | OWhole p _ => p | ODictAt p _ => p | OErase p _ => p | OSetD p _ => p end.
+
 Definition step (t : Z) (o : op) (s : tsd) : res :=
   match o with
   | OSet p v => at_path (op_set t v) t p s
@@ -518,6 +545,23 @@ Definition mod_keys (t : Z) (s : tsd) : list Z :=
   | _ => []
   end.
 (* is the delta handed back the dictionary's own per-tick delta (readable and not the sampled whole value) *)
+(* TSLDataView::modified_indices of an unbounded list, asked only when the view says the list is modified:
+   the elements that notified the list in this cycle (the circular "modified ring") *)
+Fixpoint nlast_indices (t : Z) (i : nat) (kids : list tsd) : list Z :=
+  match kids with
+  | [] => []
+  | c :: r => (if nlast (tracking c) =? t then [Z.of_nat i] else []) ++ nlast_indices t (S i) r
+  end.
+Definition mod_indices (t : Z) (link : option Z) (root : bool) (s : tsd) : list Z :=
+  let md := match link with
+            | Some lk => if root then negb (t =? MIN_DT) && ((lk =? t) || (lmt_of s =? t)) else modified t s
+            | None => modified t s
+            end in
+  match s with
+  | Fix _ _ _ kids => if md then 1 :: (if modified t s then nlast_indices t 0 kids else []) else [0]
+  | _ => [0]
+  end.
+
 Definition typed_delta (t : Z) (link : option Z) (s : tsd) : bool :=
   delta_readable t s && match link with Some lk => negb (lmt_of s <? lk) | None => true end.
 
@@ -529,8 +573,12 @@ Fixpoint read_tree (fuel : nat) (who t : Z) (p : path) (link : option Z) (root :
               match cnt with Some true => [ncnt_of s] | Some false => [-1] | None => [] end in
     match s with
     | Leaf _ _ => [me]
-    | Fix _ _ _ kids =>
-      me :: concat (map (fun ic => read_tree f who t (p ++ [Z.of_nat (fst ic)]) link false cnt (snd ic)) (combine (seq 0 (length kids)) kids))
+    | Fix _ fk _ kids =>
+      let dyn := fk =? 4 in
+      (* the elements of an unbounded list do not exist at start: no counting observer on them *)
+      let cnt' := if dyn then (match cnt with Some _ => Some false | None => None end) else cnt in
+      me :: (if dyn then [[32; who; t; Z.of_nat (length p)] ++ p ++ mod_indices t link root s] else [])
+         ++ concat (map (fun ic => read_tree f who t (p ++ [Z.of_nat (fst ic)]) link false cnt' (snd ic)) (combine (seq 0 (length kids)) kids))
     | Dict _ _ kids =>
       me :: ([24; who; t; Z.of_nat (length p)] ++ p ++ map fst kids)
          :: ([22; who; t; Z.of_nat (length p)] ++ p ++ mod_keys t s)
@@ -566,10 +614,11 @@ Definition read_cons (who t : Z) (c : cons) (s : tsd) : wire :=
 (* ------------------------------------------------------------------ the simulated run *)
 Record sim := mkSim { m_tree : tsd; m_cons : list cons; m_log : wire }.
 
-Definition apply_ops (t : Z) (h : hist) (m : sim) : sim :=
+Definition apply_ops (sh : shape) (t : Z) (h : hist) (m : sim) : sim :=
   fold_left (fun m e =>
                if fst e =? t then
-                 let r := step t (snd e) (m_tree m) in
+                 let tree := grow sh (op_path (snd e)) (m_tree m) in
+                 let r := step t (snd e) tree in
                  let ln := if r_err r =? 0 then [23; t; op_code (snd e); b2z (r_flag r)]
                            else [29; t; op_code (snd e); r_err r] in
                  mkSim (r_tree r) (map (feed t (m_tree m) (r_tree r)) (m_cons m)) (ln :: m_log m)
@@ -597,17 +646,17 @@ Fixpoint report (t : Z) (who : Z) (cs : list cons) (s : tsd) : wire :=
   | c :: r => read_cons who t c s ++ report t (who + 1) r s
   end.
 
-Fixpoint cycles (fuel : nat) (t e : Z) (h : hist) (m : sim) : sim :=
+Fixpoint cycles (sh : shape) (fuel : nat) (t e : Z) (h : hist) (m : sim) : sim :=
   match fuel with
   | O => m
   | S f =>
     if e <=? t then m else
     let tree0 := m_tree m in
-    let m1 := apply_ops t h m in
+    let m1 := apply_ops sh t h m in
     let n := Z.of_nat (length (m_cons m1)) in
     let '(cs', w) := sinks t 1 n (m_cons m1) (m_cons m1) tree0 (m_tree m1) in
     let rep := read_tree (depth (m_tree m1) + 1) 0 t [] None true (Some true) (m_tree m1) ++ report t 1 cs' (m_tree m1) in
-    cycles f (t + 1) e h (mkSim (m_tree m1) cs' (rev rep ++ rev w ++ m_log m1))
+    cycles sh f (t + 1) e h (mkSim (m_tree m1) cs' (rev rep ++ rev w ++ m_log m1))
   end.
 
 Definition run_track (w : wire) : wire :=
@@ -616,6 +665,6 @@ Definition run_track (w : wire) : wire :=
   | Some sh =>
     let '(s, e) := window w in
     let cs := match parse_cons w with [] => [mkCons 0 0 [] true MIN_DT] | l => l end in
-    let m := cycles (Z.to_nat (e - s) + 1) s e (parse_ops sh w) (mkSim (init sh) cs []) in
+    let m := cycles sh (Z.to_nat (e - s) + 1) s e (parse_ops sh w) (mkSim (init sh) cs []) in
     rev (m_log m)
   end.
